@@ -89,7 +89,7 @@ def main():
                 if u.get("value_kind") == "date":
                     v = datetime.date.fromisoformat(value)
                 if u.get("value_kind") == "enum":
-                    v = pkg.Color(value)
+                    v = [pkg.Color(x) for x in value] if isinstance(value, list) else pkg.Color(value)
                 kwargs[pyname if how == "python_name" else gname] = v
             elif given == "null":
                 kwargs[pyname if how == "python_name" else gname] = None
